@@ -127,6 +127,30 @@ def run(ctx, res):
         if back != b''.join(chunk):
             res.fail('C15:p8-file:%d' % k, 'comment lines holding each byte value do not survive .p8 write/read (%s)' % (
                 back if isinstance(back, str) else 'code differs'), {'code': hx(b''.join(chunk))})
+    # ---- the same conversion in an interpreter started with -O (assert statements are not executed there): all single bytes, all pairs
+    import subprocess
+    import sys
+    from common import REPO
+    code = ('import sys; sys.path.insert(0, %r); sys.dont_write_bytecode = True\n'
+            'from pico8.lua import lua\n'
+            'bad = []\n'
+            'for a in range(256):\n'
+            '    for b in [None] + list(range(256)):\n'
+            '        s = bytes([a]) if b is None else bytes([a, b])\n'
+            '        try:\n'
+            '            ok = lua.unicode_to_p8scii(lua.p8scii_to_unicode(s)) == s\n'
+            '        except Exception as e:\n'
+            '            ok = False\n'
+            '        if not ok: bad.append(s.hex())\n'
+            'print(len(bad), " ".join(bad[:8]))\n' % REPO)
+    for flag in ('-O', '-OO'):
+        r = subprocess.run([sys.executable, flag, '-c', code], capture_output=True, text=True)
+        res.evaluations += 1
+        res.count('optimised-interpreter-runs')
+        first = (r.stdout.strip().split() or ['?'])
+        if r.returncode != 0 or first[0] != '0':
+            res.fail('C15:python%s' % flag, 'under `python %s` %s byte strings of length 1-2 do not round-trip (e.g. %s)%s' % (
+                flag, first[0], ' '.join(first[1:4]), (' [stderr: %s]' % r.stderr[-200:]) if r.returncode else ''), {'interpreter_flag': flag})
     # ---- u2p correspondence incl. malformed stream
     rng = ctx.rng
     alphabet = sorted({ch for s in sp for ch in s}) + ['Ā', '\U0001F600', '⬇', '️', 'é']
